@@ -275,7 +275,7 @@ pub fn hostile_objects() -> Vec<(u64, Val)> {
     o.push((60, Val::stream(vec![("Length", Val::r(61))], b"indirect length".to_vec())));
     o.push((61, Val::Int(15)));
     o.push((62, Val::stream(vec![("FunctionType", Val::Int(4)), ("Domain", Val::ints(&[0, 1])), ("Range", Val::ints(&[0, 1, 0, 1, 0, 1]))], b"{ dup dup 0.5 mul exch }".to_vec())));
-    o.push((63, Val::stream(vec![("FunctionType", Val::Int(0)), ("Domain", Val::ints(&[0, 1])), ("Range", Val::ints(&[0, 1])), ("Size", Val::ints(&[2])), ("BitsPerSample", Val::Int(8))], vec![0, 255])));
+    o.push((63, Val::stream(vec![("FunctionType", Val::Int(0)), ("Domain", Val::ints(&[0, 1])), ("Range", Val::ints(&[0, 1])), ("Size", Val::ints(&[2])), ("BitsPerSample", Val::Int(8)), ("Order", Val::Int(1))], vec![0, 255])));
     o.push((64, Val::dict(vec![("FunctionType", Val::Int(2)), ("Domain", Val::ints(&[0, 1])), ("C0", Val::ints(&[0, 0, 0])), ("C1", Val::Array(vec![Val::Int(1), Val::real("0.5"), Val::Int(0)])), ("N", Val::Int(1))])));
     o.push((65, Val::stream(vec![("FunctionType", Val::Int(4)), ("Domain", Val::ints(&[0, 1, 0, 1])), ("Range", Val::ints(&[0, 1, 0, 1, 0, 1, 0, 1]))], b"{ 1 index 1 index add 1 index }".to_vec())));
     o.push((
